@@ -410,6 +410,193 @@ Proof.
     split; [exact F5|]. rewrite F6, F7, F8. auto.
 Qed.
 
+(** * Delimiter splitting of the collected values ([react]) *)
+
+Lemma delimit_go_exempt db k : forall l i, k <= i -> delimit_go true db (Some k) i l = Some l.
+Proof.
+  induction l as [|v t IH]; intros i Hk; [reflexivity|].
+  cbn [delimit_go]. assert (E : (k <=? i) = true) by (apply N.leb_le; exact Hk).
+  rewrite E. cbn [andb]. rewrite orb_true_r. rewrite IH by lia. reflexivity.
+Qed.
+
+Lemma delimit_go_app ddt db ti : forall l1 l2 i,
+  delimit_go ddt db ti i (l1 ++ l2) =
+  match delimit_go ddt db ti i l1, delimit_go ddt db ti (i + N.of_nat (length l1)) l2 with
+  | Some x, Some y => Some (x ++ y)
+  | _, _ => None
+  end.
+Proof.
+  induction l1 as [|v t IH]; intros l2 i.
+  - cbn [app delimit_go length N.of_nat]. rewrite N.add_0_r. destruct (delimit_go _ _ _ _ l2); reflexivity.
+  - cbn [app delimit_go length]. rewrite IH.
+    replace (i + 1 + N.of_nat (length t)) with (i + N.of_nat (S (length t))) by lia.
+    match goal with |- context [if ?b then Some [v] else ?e] => destruct (if b then Some [v] else e) as [h|] end;
+      [|reflexivity].
+    destruct (delimit_go ddt db ti (i + 1) t) as [x|]; [|reflexivity].
+    destruct (delimit_go ddt db ti _ l2) as [y|]; [|reflexivity].
+    rewrite app_assoc. reflexivity.
+Qed.
+
+(** with [dont_delimit_trailing_values] the values after the escape are not split at all,
+    whatever was collected for the same occurrence before the escape *)
+Theorem delimit_trailing_verbatim : forall a before tail before',
+  is_set s_dont_delimit_trailing c = true ->
+  delimit c a before (Some (N.of_nat (length before))) = Some before' ->
+  delimit c a (before ++ tail) (Some (N.of_nat (length before))) = Some (before' ++ tail).
+Proof.
+  intros a before tail before' Hd. unfold delimit. destruct (a_delim a) as [d|].
+  - rewrite Hd. cbn [andb]. destruct before as [|b0 before].
+    + cbn. intros E. injection E as <-. reflexivity.
+    + change (N.of_nat (length (b0 :: before))) with (N.pos (Pos.of_succ_nat (length before))).
+      cbv iota. intros E. rewrite delimit_go_app, E, delimit_go_exempt; [reflexivity|].
+      change (N.pos (Pos.of_succ_nat (length before))) with (N.of_nat (length (b0 :: before))). lia.
+  - intros E. injection E as <-. reflexivity.
+Qed.
+
+(** without a declared delimiter nothing is ever split *)
+Theorem delimit_no_delimiter : forall a raw ti, a_delim a = None -> delimit c a raw ti = Some raw.
+Proof. intros a raw ti H. unfold delimit. rewrite H. reflexivity. Qed.
+
+(** a value that does not contain the delimiter is never changed *)
+Theorem delimit_go_clean : forall ddt db ti l i,
+  forallb (fun v => negb (contains v db)) l = true -> delimit_go ddt db ti i l = Some l.
+Proof.
+  intros ddt db ti. induction l as [|v t IH]; intros i H; [reflexivity|].
+  cbn [forallb] in H. apply andb_true_iff in H as [Hv Ht].
+  cbn [delimit_go]. rewrite Hv. cbn [orb]. rewrite IH by exact Ht. reflexivity.
+Qed.
+
+(** * Help and version after the escape *)
+Definition is_display (k : ekind) : bool :=
+  match k with EDisplayHelp | EDisplayVersion => true | _ => false end.
+Definition display_action (a : arg) : bool :=
+  match a_get_action a with AHelp | AHelpShort | AHelpLong | AVersion => true | _ => false end.
+
+Lemma vp_parse_kind v s k : vp_parse v s = Some k -> is_display k = false.
+Proof.
+  unfold vp_parse. destruct v;
+    repeat match goal with
+           | |- context [if ?x then _ else _] => destruct x
+           | |- context [match parse_i64 ?x with _ => _ end] => destruct (parse_i64 x)
+           end; intros E; try discriminate; injection E as <-; reflexivity.
+Qed.
+
+Lemma verify_num_args_kind a raw st e st' :
+  verify_num_args c a raw st = RErr e st' -> is_display (e_kind e) = false.
+Proof.
+  unfold verify_num_args, expect, mkerr.
+  destruct (is_set s_ignore_errors c); [discriminate|].
+  destruct (a_num a) as [r|]; cbn [rbind]; [|discriminate].
+  repeat match goal with
+         | |- context [if ?x then _ else _] => destruct x
+         | |- context [match r_num_values ?x with _ => _ end] => destruct (r_num_values x)
+         | |- context [match raw with _ => _ end] => destruct raw
+         end; intros E; try discriminate; injection E as <- _; reflexivity.
+Qed.
+
+Lemma push_arg_values_kind a : forall raw st e st',
+  push_arg_values c a raw st = RErr e st' -> is_display (e_kind e) = false.
+Proof.
+  induction raw as [|v t IH]; intros st e st'; cbn [push_arg_values]; [discriminate|].
+  unfold expect. destruct (a_vp a) as [vp|]; cbn [rbind]; [|discriminate].
+  destruct (vp_parse vp v) as [k|] eqn:Ek.
+  - intros E. injection E as <- _. cbn. exact (vp_parse_kind _ _ _ Ek).
+  - destruct (add_val_to _ _ _) as [m1|]; cbn [rbind]; [|discriminate].
+    destruct (add_index_to _ _ _) as [m2|]; cbn [rbind]; [|discriminate].
+    apply IH.
+Qed.
+
+Lemma start_custom_arg_no_err a s m e st : start_custom_arg c a s m <> RErr e st.
+Proof.
+  unfold start_custom_arg. destruct (src_explicit s); [|discriminate].
+  generalize (start_custom_arg_m (match s with SCmdLine => remove_overrides c a m | _ => m end) a s).
+  intros m0. assert (H : forall l r, (forall e st, r <> RErr e st) ->
+    fold_left (fun rm g => do m <- rm; let m' := start_custom_group_m m g s in
+                           expect 1533 (add_val_to m' g (a_id a))) l r <> RErr e st).
+  { induction l as [|g l IH]; intros r Hr; cbn [fold_left]; [apply Hr|].
+    apply IH. intros e' st'. destruct r as [x| |]; cbn [rbind].
+    - unfold expect. destruct (add_val_to _ _ _); discriminate.
+    - exfalso. eapply Hr. reflexivity.
+    - discriminate. }
+  apply H. discriminate.
+Qed.
+
+Lemma react_core_kind idn s a raw ti st e st' :
+  display_action a = false ->
+  react_core c idn s a raw ti st = RErr e st' -> is_display (e_kind e) = false.
+Proof.
+  intros Ha. unfold react_core.
+  destruct (if is_cmdline s then verify_num_args c a raw st else ROk tt) as [u|e0 s0|s0] eqn:Ev; cbn [rbind].
+  2:{ intros E. injection E as <- <-. destruct (is_cmdline s); [|discriminate].
+      eapply verify_num_args_kind. exact Ev. }
+  2:{ discriminate. }
+  match goal with |- context [match ?x with (r, t) => _ end] => destruct x as [raw' ti'] end.
+  unfold expect. destruct (delimit c a raw' ti') as [raw2|]; cbn [rbind]; [|discriminate].
+  unfold display_action in Ha.
+  assert (Hsc : forall m (k : matcher -> res (ps * presult)),
+            (forall m2, k m2 = RErr e st' -> is_display (e_kind e) = false) ->
+            (do m2 <- start_custom_arg c a s m; k m2) = RErr e st' -> is_display (e_kind e) = false).
+  { intros m k Hk. pose proof (start_custom_arg_no_err a s m) as Hn.
+    destruct (start_custom_arg c a s m) as [m2|e1 s1|s1]; cbn [rbind].
+    - apply Hk.
+    - exfalso. eapply Hn. reflexivity.
+    - discriminate. }
+  assert (Hpush : forall rawx stx,
+            (do st2 <- push_arg_values c a rawx stx; ROk (st2, PRValuesDone)) = RErr e st' ->
+            is_display (e_kind e) = false).
+  { intros rawx stx. destruct (push_arg_values c a rawx stx) as [s2|e2 s2|s2] eqn:Ep; cbn [rbind]; try discriminate.
+    intros E. injection E as <- <-. eapply push_arg_values_kind. exact Ep. }
+  destruct (a_get_action a); try discriminate Ha.
+  - (* Set *)
+    match goal with |- context [mt_remove ?m ?i] => destruct (mt_remove m i) as [m1 removed] end.
+    destruct (removed && _).
+    + intros E. injection E as <- _. reflexivity.
+    + apply Hsc. intros m2. apply Hpush.
+  - apply Hsc. intros m2. apply Hpush.
+  - match goal with |- context [mt_remove ?m ?i] => destruct (mt_remove m i) as [m1 removed] end.
+    destruct (removed && _).
+    + intros E. injection E as <- _. reflexivity.
+    + apply Hsc. intros m2. apply Hpush.
+  - match goal with |- context [mt_remove ?m ?i] => destruct (mt_remove m i) as [m1 removed] end.
+    destruct (removed && _).
+    + intros E. injection E as <- _. reflexivity.
+    + apply Hsc. intros m2. apply Hpush.
+  - match goal with |- context [mt_remove ?m ?i] => destruct (mt_remove m i) as [m1 removed] end.
+    apply Hsc. intros m2. apply Hpush.
+Qed.
+
+(** a help/version error out of [resolve_pending] needs a pending occurrence of an argument
+    whose action is Help/Version (such arguments take no values and are never pending) *)
+Lemma resolve_pending_display st e st' :
+  resolve_pending c st = RErr e st' -> is_display (e_kind e) = true ->
+  exists p a, mt_pending (mt st) = Some p /\ find_arg c (p_id p) = Some a /\ display_action a = true.
+Proof.
+  unfold resolve_pending. destruct (mt_pending (mt st)) as [p|]; [|discriminate].
+  unfold expect. destruct (find_arg c (p_id p)) as [a|] eqn:Ef; cbn [rbind]; [|discriminate].
+  destruct (react_core c _ _ a _ _ _) as [r|e1 s1|s1] eqn:Er; cbn [rbind]; try discriminate.
+  intros E Hd. injection E as <- <-. exists p, a. split; [reflexivity|]. split; [exact Ef|].
+  destruct (display_action a) eqn:Ea; [reflexivity|].
+  rewrite (react_core_kind _ _ _ _ _ _ _ _ Ea Er) in Hd. discriminate.
+Qed.
+
+(** T1'': no token after the escape is a help or version request: a DisplayHelp/DisplayVersion
+    error of the trailing-mode loop can only come out of resolving a pending occurrence of an
+    argument with a Help/Version action, in a state reached by [tstep]s *)
+Theorem trailing_no_display : forall toks ls st e st',
+  l_trailing ls = true -> parse_loop c toks ls st = RErr e st' -> is_display (e_kind e) = true ->
+  exists pre tok rest ls1 st1 p a,
+    toks = pre ++ tok :: rest /\ truns (tok :: rest) pre ls st ls1 st1 /\
+    mt_pending (mt st1) = Some p /\ find_arg c (p_id p) = Some a /\ display_action a = true.
+Proof.
+  intros toks ls st e st' Htr E Hd.
+  destruct (trailing_outcome toks ls st Htr) as [ls' st2 _ Er|pre tok rest ls1 st1 Eq Hr Hst].
+  - rewrite E in Er. discriminate.
+  - rewrite E in Hst. inversion Hst as [| |pc' e0 s0 _ _ Hk|e0 s0 Hrp]; subst.
+    + destruct (e_kind e); discriminate.
+    + destruct (resolve_pending_display _ _ _ Hrp Hd) as (p & a & H1 & H2 & H3).
+      exists pre, tok, rest, ls1, st1, p, a. auto.
+Qed.
+
 (** * The iteration on [--] *)
 Definition dashdash : bytes := [DASH; DASH].
 
